@@ -172,6 +172,8 @@ def check(db, rep):
         r4.violation('UpdateExpressions', '%s:%d' % (ue.file, ue.line), 'mentions are not rewritten for every constituent on both sides of the core')
 
     # ------------------------------------------------------------------ r5
+    r10 = rep.rule('r10', 'ADMISSIBILITY-TOTAL: the admissibility test of an equation table answers yes or no - every optional::value() on its paths (RSEquationProcessor methods reachable from Evaluate) is dominated by has_value() on the same object, so an inadmissible table cannot make it throw', 1)
+    _admissibility_total(db, r10)
     r9 = rep.rule('r9', 'NO-LOOP-BY-EQUATION: an equation table is refused whenever identifying every removed constituent with its replacement closes a dependency loop - also when no single pair does (the precheck interpreted over small dependency graphs with the real graph code)', 1)
     equation_loops_evaluated(db, r9)
     r8 = rep.rule('r8', 'TRANSLATION-CLOSED: the translation returned by duplicate elimination maps every erased constituent to a constituent that still exists (interpreted on schemas with chains of duplicates)', 1)
@@ -693,3 +695,37 @@ def equation_loops_evaluated(db, rule):
         rule.broken('the interpreted precheck accepts none of %d tables: the harness no longer reflects the code' % cases)
     else:
         rule.ok('equation-table-loops', '%d (dependency graph, table) cases, %d accepted: no accepted table closes a dependency loop' % (cases, accepted), '%s:%d' % (f.file, f.line))
+
+
+def _admissibility_total(db, rule):
+    from engine.cfgq import guard_atoms
+    ev = [f for f in db.methods_of(EP) if f.name.endswith('::Evaluate') and f.has_cfg() and any('EquationOptions' in p['type'] for p in f.rec.get('params', []))]
+    if len(ev) != 1:
+        rule.broken('anchor vanished: RSEquationProcessor::Evaluate(const EquationOptions&)')
+        return
+    seen, stack = {}, [ev[0]]
+    while stack:
+        f = stack.pop()
+        if f.rec.get('mn') in seen:
+            continue
+        seen[f.rec.get('mn')] = f
+        for n in f.calls():
+            for t in db.callees(f, n):
+                if t.cls == EP and t.has_cfg():
+                    stack.append(t)
+    n_sites = 0
+    for f in sorted(seen.values(), key=lambda x: x.name):
+        for n in f.calls():
+            if n.get('cs') != 'std::optional::value' or 'obj' not in n:
+                continue
+            n_sites += 1
+            root = f.root_of(f.stmts[n['obj']])
+            pos = f.position_of(n)
+            atoms = guard_atoms(f, pos) if pos else []
+            inst = '%s:%s' % (f.name.split('::')[-1], f.stmts[n['obj']].get('txt', '')[:50].replace(' ', ''))
+            if root is not None and any(a[0] == 'has_value' and a[1] == root and a[2] for a in atoms):
+                rule.ok(inst, 'dominated by has_value() on the same object', f.loc(n))
+            else:
+                rule.violation(inst, f.loc(n), '`%s` is on the path of the admissibility test without a has_value() test of the same object (an assert is compiled out): for a table that mixes a base set with a term the rewritten typification has no type and std::bad_optional_access leaves IsEquatable / Equate / the synthesis constructor' % (n.get('txt') or '')[:80])
+    if not n_sites:
+        rule.ok('no-optional-access', 'the admissibility test reads no optional by value()', '%s:%d' % (ev[0].file, ev[0].line), nontrivial=False)
